@@ -192,3 +192,31 @@ PROPS["C10"] = {
     "assumptions": ["alloc::slice::stable_sort modelled by an insertion sort, alloc::vec::Vec::remove by rotate-to-end + pop (harness/std/src/stdstubs.rs): std is the environment",
                     "cffi.rs sysconf model (64-byte page)"],
 }
+
+PROPS["C12"] = {
+    "groups": [
+        {"crate": "std", "quick": ["c12::drop_step", "c12::history_clone", "c12::history_insert"], "thorough": ["c12::history_remove"],
+         "jobs": 3, "mem_gb": 20, "timeout_s": 1500, "timeout_thorough_s": 3000, "stubbed": True,
+         "unwindset": {"default": 5, "rules": []}},
+    ],
+    "bounds": "(i) drop step: owned region at symbolic (address, size) through MmapRegion::new and through the builder with symbolic prot/flags; external "
+              "raw-pointer region at any page-aligned address; (ii) histories over two owned regions at symbolic host addresses/sizes: build+clone (both drop "
+              "orders), build+insert_region (both orders), build+remove_region (all six drop orders of old map / new map / removed handle; thorough tier); "
+              "ghost table compared with the reachability model after every drop",
+    "outside": "the 'programs' half (an accessor outliving its region must not compile) is decided by rustc's borrow checker, not by a solver; "
+               "real mmap/munmap (modelled); histories with three or more live maps; GuestMemoryMmap::from_regions inside histories (its drain/collect "
+               "followed by real drops exceeds 25 GB; from_arc_regions is used, from_regions' results are C10's); snapshots (C11)",
+    "assumptions": ["cffi.rs mmap/munmap models with ghost table: munmap must name exactly one live (base,len)",
+                    "alloc::slice::stable_sort / Vec::remove models (stdstubs.rs)"],
+}
+
+PROPS["C15"] = {
+    "groups": [
+        {"crate": "std", "quick": ["c15::"], "jobs": 6, "mem_gb": 8, "timeout_s": 900, "stubbed": True, "kani_flags": ["--default-unwind", "6"]},
+    ],
+    "bounds": "standard build: size, protection, flags word, file offset, file length (lseek model), raw pointer value, guest base all unconstrained; "
+              "mmap may fail; lseek may fail",
+    "outside": "'byte i of the region is byte offset+i of the file' is the kernel's mmap contract; what is decided is that the library passes exactly "
+               "(size, prot, flags, fd, offset) and reports the request back; real descriptors",
+    "assumptions": ["cffi.rs models of mmap/munmap/lseek64/close/sysconf/__errno_location are the environment contract; File::from_raw_fd(7) stands for an arbitrary open file"],
+}
